@@ -97,7 +97,6 @@ TraceReadStream ==
     /\ Line.runs = OneRun(cur, cons, Line.k)
     /\ Line.eof => cons + Line.k = BodyLen(cur)          \* EOF is not reported early
     /\ (cons = BodyLen(cur) /\ Line.p > 0) => Line.eof   \* nor late: a read at the end reports EOF
-    /\ (Line.k = 0 /\ Line.p > 0) => Line.eof            \* a read makes progress unless at the end
     /\ ~eofSeen \/ Line.k = 0
     /\ rd <= Line.rd /\ Line.rd <= reqs[cur].end /\ Line.rd <= sent   \* never consumes beyond the body
     /\ IF Line.k = 0 THEN UNCHANGED cons ELSE cons' = cons + Line.k
@@ -127,12 +126,19 @@ TraceRespond ==
 TraceClosed ==
     /\ active /\ HasLine /\ Line.ev = "ConnClosed"
     /\ \/ CloseAfter /\ UNCHANGED unread
-       \/ CloseUnread /\ unread' = TRUE
+       \/ ~LastClose /\ CloseUnread /\ unread' = TRUE
        \/ IdleClose /\ UNCHANGED unread
     /\ Consume /\ UNCHANGED <<script, active, readDone, eofSeen>>
 
-\* between requests (nothing logged): skip the rest of a streamed body, finish the tracer pair, next request
-TraceContinue == /\ active /\ Continue /\ UNCHANGED <<l, bad>> /\ KeepAux
+\* between requests (nothing logged): skip the rest of a streamed body, finish the tracer pair, next request.
+\* The trace specification must stay deterministic (one successor per state), otherwise Mismatch would fire on a
+\* branch that merely guessed wrong: the silent step is therefore taken exactly when the next recorded event is
+\* one that only the idle phase of the next request can produce.
+NeedsIdle == /\ HasLine
+             /\ \/ Line.ev = "Handle"
+                \/ Line.ev = "Response"
+                \/ (Line.ev = "ConnClosed" /\ ~(cfg.streaming /\ rd < reqs[cur].end))
+TraceContinue == /\ active /\ phase = "after" /\ NeedsIdle /\ Continue /\ UNCHANGED <<l, bad>> /\ KeepAux
 
 \* the connection is over: every request up to the first that closes was handled, unless the server gave up on
 \* a connection whose streamed body was left unread
